@@ -109,8 +109,21 @@ func c10RacePass(tier string) {
 							panic("race pass: future creation")
 						}
 						var bodies []func()
+						callerCtx, callerCancel := context.WithCancel(context.Background())
 						for _, o := range []int{o1, o2, o3} {
+							if futOps[o].name == "end-caller-context" {
+								bodies = append(bodies, func() { callerCancel() })
+								continue
+							}
 							ast := lx.MustRead(futOps[o].text)
+							if futOps[o].name == "deref-cancellable" {
+								bodies = append(bodies, func() {
+									ctx, cancel := context.WithTimeout(callerCtx, 20*time.Millisecond)
+									defer cancel()
+									lx.Eval(ctx, ast, scope)
+								})
+								continue
+							}
 							if futOps[o].name == "deref" && futBodies[b].name == "waits-for-cancel" {
 								// a deref of a future nobody may cancel would block: give it a deadline
 								bodies = append(bodies, func() {
@@ -123,6 +136,7 @@ func c10RacePass(tier string) {
 							bodies = append(bodies, func() { lx.Eval(context.Background(), ast, scope) })
 						}
 						raceRun(bodies)
+						callerCancel()
 						total++
 					}
 				}
